@@ -26,72 +26,39 @@ Shape of the model
   yet (so the answer depends on it) and the pattern is outside a small conservative fragment
   (`reAnalyse`), the answer is `unmodelled`.
 
-CANDIDATE DEFECTS (C04 / C20 / C02).  Every place where the real parser accepts a query while
-ignoring part of its text, lets spelling change the meaning, or panics.  Every witness below is in
-`WITNESSES` of harness/src/props/parse.rs (family "witness"); the outcome quoted is the one
-`ag::lang::query` gave AND the model reproduces (0 disagreements).  /repo is unchanged.
+DEFECTS FOUND THROUGH THIS MODEL (C04 / C20 / C02).  The first version of this file mirrored
+the unchanged tree; every item below was a disagreement-free reproduction (PARSE witnesses in
+harness/src/props/parse.rs `WITNESSES`), was then reproduced on the real code by the C04 / C20
+oracles (evidence/C04.before-fixes.json, evidence/C20.before-fixes.json) and repaired in /repo.
+The model now mirrors the REPAIRED code; comments at each definition name the commit.
 
- A. `query()` never checks that the input is exhausted (lang.rs:1667-1679): whatever follows the
-    last operator that `separated_list1(tag("|"), …)` could parse is dropped without a report.
-    Only operators without `expect_pipe` leak: `fields`, `sort`, field expression, alias.
-      `* | json | sort by x descending | limit 1`  ACCEPT sort [x] desc      ("ending | limit 1" dropped)
-      `* | json | sort by x ascending | limit 1`   ACCEPT sort [x] asc       (same)
-      `* | json | fields x b`                      ACCEPT fields only [x]    (" b" dropped)
-      `* | json | fields - x,y z | count`          ACCEPT fields except [x,y] (" z | count" dropped)
-      `* | json | sorted by x | limit 1`           ACCEPT sort [] asc        ("ed by x | limit 1" dropped)
-      `* | json | sort_key as x`                   ACCEPT sort [] asc        (field expression lost)
-      `* | json | sort by x desc,y`                ACCEPT sort [x] desc      (",y" dropped)
-      `* | json | n + 1 as m extra | limit 1`      ACCEPT fexpr              (" extra | limit 1" dropped)
-      `* | json | apache x`                        ACCEPT alias              (" x" dropped)
-      ` | count`, `\n|\njson|count`                ACCEPT with NO operators: `end_of_query` only peeks,
-                                                   so blanks before the first '|' make `tag("|")` fail
-                                                   and `opt(..)` yields an empty pipeline
- B. `did_you_mean` (lang.rs:1592-1642) SUCCEEDS WITHOUT A REPORT when the leading identifier is a
-    valid operator name; it swallows everything up to the next '|' and yields `Operator::Error`,
-    which `Pipeline::new` skips: the whole stage is silently dropped.
-      `* | json | count by x y`        ACCEPT [json, Error]
-      `* | json | count x`             ACCEPT [json, Error]
-      `* | json | count as`            ACCEPT [json, Error]
-      `* | json | count_distinct x`    ACCEPT [json, Error]
-      `* | json | fields`              ACCEPT [json, Error]
-      `* | json | fields except`       ACCEPT [json, Error]   (`fields only` likewise)
-      `* | json | fields а`            ACCEPT [json, Error]   (U+0430, see E)
-      `* | parse`                      ACCEPT [Error]
-    (reported, hence rejected: `count, sum`, `limit5`, `jsonx`, `timeslice`, `total`, `split x`,
-     `where1`, `nosuch`, `cuont by x`, `count by x, | limit 1`, `sort by x, | count`)
- C. Prefix tags (`tag` has no word boundary) — spelling changes meaning (C20):
-      `* | json | sort by x descending`  = `desc` + garbage (A);  `asc` shadows `ascending`
-      `* | json | countby x`             ACCEPT = `count by x`
-      `* | json | count_distinct(x)by y` ACCEPT = `count_distinct(x) by y`
-      `* | parse "*" asx`                ACCEPT = `as x`
-      `* | json | fields onlyx`          ACCEPT = `fields only x`; `fields -x`, `fields dropx` likewise
-      `* | json | minutes as m`          REJECT: an identifier that merely STARTS with min / max /
-         sum / avg / p<digits> is taken for the aggregate (`p50 + 1 as y`, `sum_x as y`,
-         `maximum as z`, `avg_latency as z`), whereas `count_x as y`, `iffy as z` are accepted
-      `* | json | truex as y`, `nullable as y`, `where true_x`  REJECT (`true`/`null` are prefix tags)
-      `* | json | limit infinity`        REJECT (`inf` matched first); `limit inf`, `limit nan`
-         ACCEPT (count = inf / NaN reaches the type checker); `limit -inf` REJECT; `limit 1e`
-         REJECT through nom `Err::Failure` (no diagnostic at all); `limit 1e5` ACCEPT
-      `* | json | where x andy`, `where x order`  REJECT ("dangling and/or")
-      `* | json | where x == -5`, `where x > 1.5` REJECT (no negative / fractional literals)
- D. Filters are binary only (`separated_pair`), a third operand re-enters `many_till` (C02):
-      `a AND b AND c | json`  ACCEPT And[And[a,b], kw "AND", kw "c"] : the word AND is searched for
-      `a OR b OR c`           ACCEPT And[Or[a,b], kw "OR", kw "c"]
-      `NOT`, `AND`            ACCEPT as plain keywords
- E. Truncating casts `c as u8` in is_ident / starts_ident / is_keyword:
-      `* | json | š1 as x`, `where š > 1`, `šš | json`   ACCEPT (U+0161 ≡ 'a')
-      U+0430 'а' ≡ '0' and U+0131 'ı' ≡ '1' count as DIGITS of an identifier; `日本 | json` REJECT
- F. Panics (counterexamples to `C04_total`):
-      `(a é`                         lang.rs:331  expect_delimited skip loop `slice(1..)` inside 'é'
-      `* | where é|`                 lang.rs:1148 expr(): sync index 1 used as byte offset
-                                     (`* | where é` is only rejected: no sync char → byte length)
-      `* | json | count(é)`          lang.rs:287  expect_fn
-      `* | parse é x`                lang.rs:1252 req_quoted_string / to_whitespace
-      `a | json | where isBlank😀(s)` lang.rs:262  expect_pipe → expect
-      `* | where x == 9223372036854775807w`           chrono `TimeDelta::weeks out of bounds`
-      `* | where -9223372036854775808ms`              chrono `TimeDelta::milliseconds out of bounds`
-      `* | where 9000000000000000s9000000000000000s`  chrono `TimeDelta + TimeDelta overflowed`
- G. Same default name twice: `p99(x), percentile099(y)` both become column "p99" (C01).
+ A. `query()` never checked that the input was exhausted: `* | json | fields x b`,
+    `* | json | n + 1 as m extra | limit 1`, `* | json | sorted by x | limit 1`, `* | json | apache x`,
+    ` | count` (blanks before the first bar ⇒ no operators at all).            fixed a4c4b50
+ B. `did_you_mean` succeeded WITHOUT a report when the leading identifier is a valid operator
+    name, leaving `Operator::Error` (skipped by Pipeline::new): `* | json | count by x y`,
+    `* | json | fields except`, `* | json | count_distinct x`, `* | parse`.    fixed aca43de
+ C. `tag("asc")`/`tag("desc")` before the long spellings: `sort by x descending | limit 1` lost
+    the limit.                                                                 fixed 96a22d2
+    Still open (known_findings.json): keywords are prefix tags without a word boundary
+    (`countby x`, `parse "*" asx`, `fields onlyx` accepted; `minutes as m`, `p50 + 1 as y`,
+    `maximum as z`, `trueish`/`nullable` inside expressions rejected or misread).
+ D. AND / OR took exactly two operands: `a AND b AND c` searched for the word "AND".  fixed f43daf2
+ E. `c as u8` in is_ident/starts_ident/is_keyword: `š1 as x` accepted (U+0161 ≡ 'a').  fixed 1e96979
+ F. Panics: char indices used as byte offsets and a byte-wise skip loop (`(a é`, `* | where é|`,
+    `* | json | count(é)`, `* | parse é x`) fixed 8ce3d1f; chrono duration constructors / Add
+    (`9223372036854775807w`, `-9223372036854775808ms`, `9000000000000000s9000000000000000s`)
+    fixed c7b3e3a.  (Related, outside the parser: byte ranges handed to annotate-snippets a08f142,
+    `limit -9223372036854775808` 68d8770.)
+ G. Blanks: before `)` of a single-argument operator / parenthesised expression, just inside
+    filter parentheses, before `,` in a name list.                             fixed dfe3426
+ Open: the header of a `by` key is its source text (`sourcedExpr`), so spelling changes the output
+ column; `p99(x), percentile099(y)` both become column "p99".
+
+Quirks that remain and are mirrored here: `value` tags `true`/`false`/`null` and `digit1` are prefix
+matches; no negative or fractional number literals in expressions (`x == -5`, `x > 1.5` rejected);
+`limit inf` / `limit nan` are accepted by the parser (the type checker rejects them); `limit 1e` is
+a nom `Failure` (rejected without any diagnostic).
 
 Not modelled: the text/ranges of diagnostics; `regex::Regex::new` beyond `reAnalyse`.
 -/
@@ -1086,7 +1053,7 @@ def fieldExpr (env : Env) : P Operator := do
 def aliasOp (env : Env) : P Operator := fun i e =>
   match recognize ident i e with
   | .ok txt r e1 =>
-    match env.aliases.find? (fun a => a.1 == String.ofList txt) with
+    match env.aliases.find? (fun a => a.1.toList == txt) with
     | some a => .ok (.alias a.2) r e1
     | none => .fail i e1
   | r => r.castErr
